@@ -611,10 +611,27 @@ func (fc *FnCtx) autoLemmasExcept(st *State, except string) {
 // mode (e.g. reference-indexed ghost sets in pure bit-vector mode) is skipped.
 func (fc *FnCtx) autoLemmaOne(st *State, lm *Lemma, cs *ContractSet) {
 	savedPre, savedDefine := len(fc.pre), fc.noDefine
+	savedDeclared := make(map[string]bool, len(fc.declared))
+	for k, v := range fc.declared {
+		savedDeclared[k] = v
+	}
+	savedLits := make(map[string]string, len(fc.strLits))
+	for k, v := range fc.strLits {
+		savedLits[k] = v
+	}
 	defer func() {
 		if r := recover(); r != nil {
 			if _, ok := r.(vcError); ok {
+				// roll back everything the failed attempt put into the preamble, including the record of what it
+				// declared (otherwise a sort or function declared only by the dropped lines is never declared again)
 				fc.pre = fc.pre[:savedPre]
+				for i := range fc.axiomKey {
+					if i >= savedPre {
+						delete(fc.axiomKey, i)
+					}
+				}
+				fc.declared = savedDeclared
+				fc.strLits = savedLits
 				fc.noDefine = savedDefine
 				return
 			}
